@@ -281,56 +281,40 @@ def save_points(ctx, frs):
 
 
 def records(ctx, frs):
+    """R05.3: per update, exactly the records that solve() declares for the same configuration are appended, once each - compared
+    between the traces of update() (pvs/update_trace.py) and what Runner(...) receives (pvs/tables.py), per (probes, screening)."""
     repo = ctx.repo
     fu = repo.func(SOLVER, "TDGLSolver.update")
-    fn = fu.node
-    pm = parent_map(fn)
-    from ..dataflow import expand
-    apps: Dict[str, List[List[str]]] = {}
-
-    def gtext(f_, x, br):
-        # guards compared after expanding alias locals (options = self.options, probe_points = self.probe_points)
-        return ("" if br == "true" else "not ") + norm(expand(f_, x.test))
-    for n in own_nodes(fn):
-        if isinstance(n, ast.Call) and norm(n.func) == "running_state.append" and n.args and isinstance(n.args[0], ast.Constant):
-            st = n
-            while not isinstance(st, ast.stmt):
-                st = pm[id(st)][0]
-            g = []
-            for x, br in guards_of(fn, st, pm):
-                if isinstance(x, (ast.For, ast.While)):
-                    g.append("LOOP")
-                elif isinstance(x, ast.If):
-                    g.append(gtext(fn, x, br))
-            apps.setdefault(n.args[0].value, []).append(g)
-    fs = repo.func(SOLVER, "TDGLSolver.solve")
-    decl: Dict[str, List[str]] = {}
-    pms = parent_map(fs.node)
-    # the declaration table is the dict handed to Runner(running_names_and_sizes=...)
-    tname = None
-    for n in own_nodes(fs.node):
-        if isinstance(n, ast.Call):
-            for k in n.keywords:
-                if k.arg == "running_names_and_sizes" and isinstance(k.value, ast.Name):
-                    tname = k.value.id
-    if tname is None:
-        raise AnalysisError("solve() no longer passes a local table as Runner(running_names_and_sizes=...)")
-    for n in own_nodes(fs.node):
-        if isinstance(n, ast.Assign):
-            for t in n.targets:
-                if isinstance(t, ast.Name) and t.id == tname and isinstance(n.value, ast.Dict):
-                    for k in n.value.keys:
-                        decl[k.value] = []
-                if isinstance(t, ast.Subscript) and norm(t.value) == tname and isinstance(t.slice, ast.Constant):
-                    decl[t.slice.value] = [gtext(fs.node, x, br)
-                                           for x, br in guards_of(fs.node, n, pms) if isinstance(x, ast.If)]
-    norm_g = lambda g: list(g)
-    for name in sorted(set(apps) | set(decl)):
-        a = apps.get(name, [])
-        ok = len(a) == 1 and "LOOP" not in a[0] and name in decl and norm_g(a[0]) == norm_g(decl[name])
-        ctx.ob("R05.3", f"record {name!r}: appended once per update under {decl.get(name)}", ok,
-               detail={"appends": a, "declared_under": decl.get(name)}, where=fu.fq, construct=f"running_state.append({name!r})",
-               loc=loc(fu, fn), message=f"record {name!r}: appended {len(a)} time(s) under {a}, declared under {decl.get(name)}",
+    from ..update_trace import all_traces
+    from ..tables import runner_arguments
+    declared = {}
+    for sc, t in runner_arguments(repo):
+        if t["running"] is None:
+            raise AnalysisError("solve() no longer passes a table of record names and sizes as Runner(running_names_and_sizes=...)")
+        declared.setdefault((sc["probes"], sc["screening"]), set()).add(tuple(sorted(t["running"])))
+    problems = {}
+    seen = {}
+    for t in all_traces(repo):
+        if t.outcome[0] != "return":
+            continue
+        sc = t.scenario
+        key = (sc["probes"], sc["screening"])
+        names = [e.args[0] for e in t.calls("append") if e.name.startswith("running_state") and e.args and isinstance(e.args[0], str)]
+        decl = declared.get(key, set())
+        seen.setdefault(key, set()).add(tuple(sorted(names)))
+        if len(decl) != 1:
+            problems[f"probes={key[0]} screening={key[1]}"] = f"solve() declares {sorted(decl)}"
+            continue
+        want = next(iter(decl))
+        if tuple(sorted(names)) != want:
+            tag = ", ".join(f"{k}={v}" for k, v in sc.items() if k != "max_iterations")
+            problems.setdefault(f"probes={key[0]} screening={key[1]}", f"[{tag}] appends {sorted(names)}, solve() declares {list(want)}")
+    for key in sorted(declared):
+        tag = f"probes={key[0]} screening={key[1]}"
+        ctx.ob("R05.3", f"records with {tag}: each declared record is appended exactly once per update, nothing else is", tag not in problems,
+               detail={"declared": sorted(declared[key]), "appended": sorted(seen.get(key, []))}, where=fu.fq,
+               construct=f"running_state.append under {tag}", loc=loc(fu, fu.node),
+               message=f"records with {tag}: {problems.get(tag)}",
                consequence="a per-step record appears twice/never per step, or is written into a buffer that was not allocated")
     # cursor / clear in _run_stage
     fnr = frs.node
